@@ -63,6 +63,19 @@ class Nop(Instruction):
         return "NOP"
 
 
+def _in_fixed_order(registers):
+    """Iterate registers in a reproducible order.
+
+    Back-ends pass sets of registers. A set of objects iterates in an order
+    that depends on memory addresses, and the order of the operands decides
+    the order in which the register allocator sees them. Without a fixed
+    order the generated code differs from run to run.
+    """
+    if isinstance(registers, (set, frozenset)):
+        return sorted(registers, key=lambda r: (type(r).__name__, r.name))
+    return registers
+
+
 class RegisterUseDef(VirtualInstruction):
     """Magic instruction that can be used to define and use registers"""
 
@@ -78,14 +91,14 @@ class RegisterUseDef(VirtualInstruction):
         self.extra_uses.append(reg)
 
     def add_uses(self, uses):
-        for use in uses:
+        for use in _in_fixed_order(uses):
             self.add_use(use)
 
     def add_def(self, reg):
         self.extra_defs.append(reg)
 
     def add_defs(self, defs):
-        for df in defs:
+        for df in _in_fixed_order(defs):
             self.add_def(df)
 
 
